@@ -22,7 +22,7 @@ pub fn items_for(codes: &[Code], dense_core: u64, dense_rest: u64, seed: u64, ex
             let nv = n_direct_write_variants(c) as u8;
             let wvar = if wvar_rot { rot % nv } else { 0 };
             rot = rot.wrapping_add(1);
-            items.push(Item { code: c, v, wvar });
+            items.push(Item { code: c, v, wvar, follow: 0xFFFF });
         }
     }
     items
@@ -124,10 +124,32 @@ pub fn c03(ctx: &Ctx) -> (CheckMeta, Outcome) {
     if !b.is_empty() {
         out.merge(run_streams(b, items_b, ctx, &["C03"]));
     }
+    // (c) arbitrary following bits: every core code, small values, followed by EVERY byte value
+    {
+        let mut items = vec![];
+        let vmax: u64 = if ctx.thorough { 300 } else { 72 };
+        for &c in &core {
+            for v in 0..vmax {
+                if !in_domain(c, v) {
+                    continue;
+                }
+                for f in 0..256u16 {
+                    items.push(Item { code: c, v, wvar: 0, follow: f });
+                }
+            }
+        }
+        let mut cfgs = vec![];
+        for e in End::BOTH {
+            for (w, o) in [(64usize, 0usize), (32, 5), (8, 3)] {
+                cfgs.push(StreamCfg { e, wbits: w, offset: o, readers: vec![("buf32", "memzx"), ("unbuf", "memstrict"), ("buf16", "memstrict"), ("buf64", "memzx")], with_disp: false, all_read_variants: true });
+            }
+        }
+        out.merge(run_streams(cfgs, std::sync::Arc::new(items), ctx, &["C03"]));
+    }
     let meta = CheckMeta {
         property: "C03".into(),
         level: "exploration".into(),
-        rule: "bounded-exhaustive: histories 'o pattern bits; codeword; sentinel (delta(5)+7 raw bits)' written by the real writer and read back by real readers; (a) every offset 0..=129 x writer u64 x readers {buf32 zero-ext, unbuf strict} x core codes; (b) every writer word 8..128 x every reader kind x {zero-ext, strict} x boundary offsets (thorough: every offset 0..=2W+1) x all codes (zeta 1..=63, pi/rice/exp-golomb 0..=63, golomb/minimal-binary moduli 1..=64, 2^i-1, 2^i, 2^i+1, 2^64-1), values dense below a bound plus every 2^i+-2, length steps, domain maxima, seeded extras, restricted to codewords <= 4096 bits; every read variant (default, parametric with/without tables) is tried on a clone; oracle: value, bit_pos after the read = end of the written codeword, sentinel decodes; non-trivial = codeword straddles a writer word boundary at that offset or value > 1023".into(),
+        rule: "bounded-exhaustive: histories 'o pattern bits; codeword; sentinel (delta(5)+7 raw bits)' written by the real writer and read back by real readers; (a) every offset 0..=129 x writer u64 x readers {buf32 zero-ext, unbuf strict} x core codes; (c) every core code x values below 72 (thorough 300) followed by EVERY byte value 0..=255 (the bits a look-ahead sees) on three writer/offset pairs x four readers; (b) every writer word 8..128 x every reader kind x {zero-ext, strict} x boundary offsets (thorough: every offset 0..=2W+1) x all codes (zeta 1..=63, pi/rice/exp-golomb 0..=63, golomb/minimal-binary moduli 1..=64, 2^i-1, 2^i, 2^i+1, 2^64-1), values dense below a bound plus every 2^i+-2, length steps, domain maxima, seeded extras, restricted to codewords <= 4096 bits; every read variant (default, parametric with/without tables) is tried on a clone; oracle: value, bit_pos after the read = end of the written codeword, sentinel decodes; non-trivial = codeword straddles a writer word boundary at that offset or value > 1023".into(),
         assumptions: vec!["readers that printed the look-ahead diagnostic for a table are not asked to use that table (library documentation: behaviour unpredictable otherwise)".into()],
     };
     (meta, out)
